@@ -35,7 +35,60 @@ macro_rules! comp {
     };
 }
 comp!(K0, VecStorage<Self>);
-comp!(K1, DenseVecStorage<Self>);
+comp!(K1, NoDefaultStorage<Self>);
+
+/// A storage type without `Default` (it has to be registered through `register_with_storage`): the
+/// set-up of systems that use it must be content with the storage that is already there.
+pub struct NoDefaultStorage<T> {
+    inner: DenseVecStorage<T>,
+}
+
+impl<T> NoDefaultStorage<T> {
+    pub fn new() -> Self {
+        NoDefaultStorage { inner: DenseVecStorage::default() }
+    }
+}
+
+impl<T> specs::storage::TryDefault for NoDefaultStorage<T> {
+    fn try_default() -> Result<Self, String> {
+        Err("NoDefaultStorage has no default, use register_with_storage".to_owned())
+    }
+}
+
+impl<T> specs::storage::UnprotectedStorage<T> for NoDefaultStorage<T> {
+    type AccessMut<'a> = &'a mut T where T: 'a;
+
+    unsafe fn clean<B>(&mut self, has: B)
+    where
+        B: specs::hibitset::BitSetLike,
+    {
+        // SAFETY: requirements passed on to the caller.
+        unsafe { self.inner.clean(has) }
+    }
+    unsafe fn get(&self, id: specs::world::Index) -> &T {
+        // SAFETY: requirements passed on to the caller.
+        unsafe { self.inner.get(id) }
+    }
+    unsafe fn get_mut(&mut self, id: specs::world::Index) -> &mut T {
+        // SAFETY: requirements passed on to the caller.
+        unsafe { self.inner.get_mut(id) }
+    }
+    unsafe fn insert(&mut self, id: specs::world::Index, value: T) {
+        // SAFETY: requirements passed on to the caller.
+        unsafe { self.inner.insert(id, value) }
+    }
+    unsafe fn remove(&mut self, id: specs::world::Index) -> T {
+        // SAFETY: requirements passed on to the caller.
+        unsafe { self.inner.remove(id) }
+    }
+}
+
+impl<T> specs::storage::SharedGetMutStorage<T> for NoDefaultStorage<T> {
+    unsafe fn shared_get_mut(&self, id: specs::world::Index) -> &mut T {
+        // SAFETY: requirements passed on to the caller.
+        unsafe { self.inner.shared_get_mut(id) }
+    }
+}
 comp!(K2, HashMapStorage<Self>);
 comp!(K3, BTreeStorage<Self>);
 comp!(K4, DefaultVecStorage<Self>);
@@ -115,7 +168,7 @@ fn all_resources(world: &World) -> Vec<(ResourceId, &'static str, Borrow)> {
 fn new_world() -> World {
     let mut w = World::new();
     w.register::<K0>();
-    w.register::<K1>();
+    w.register_with_storage::<_, K1>(NoDefaultStorage::new);
     w.register::<K2>();
     w.register::<K3>();
     w.register::<K4>();
@@ -256,6 +309,118 @@ fn c11_probe(ctx: &ShardCtx) -> ShardResult {
 fn c11_probe_replay(v: &Value) -> Verdict {
     let c: ProbeCase = parse_case("probe", v)?;
     probe_named(&c.0)
+}
+
+// ---------------------------------------------------------------------------
+// (iv) the same declaration / borrow comparison over a large family of component types: a defect that
+// depends on the identity (type id / hash) of the component type is invisible with seven types
+
+pub struct CG<const N: usize>(pub u32);
+impl<const N: usize> specs::Component for CG<N> {
+    type Storage = specs::VecStorage<Self>;
+}
+
+const MANY: usize = 512;
+
+fn many_one<const N: usize>(world: &mut World, only: Option<usize>) -> Verdict {
+    if only.map(|o| o != N).unwrap_or(false) {
+        return Ok(());
+    }
+    world.register::<CG<N>>();
+    let world = &*world;
+    let sid = ResourceId::new::<MaskedStorage<CG<N>>>();
+    let eid = ResourceId::new::<EntitiesRes>();
+    for write in [false, true] {
+        let (reads, writes, bs, be) = if write {
+            let d = <WriteStorage<CG<N>> as SystemData>::fetch(world);
+            let r = (probe::<MaskedStorage<CG<N>>>(world), probe::<EntitiesRes>(world));
+            drop(d);
+            (<WriteStorage<CG<N>> as SystemData>::reads(), <WriteStorage<CG<N>> as SystemData>::writes(), r.0, r.1)
+        } else {
+            let d = <ReadStorage<CG<N>> as SystemData>::fetch(world);
+            let r = (probe::<MaskedStorage<CG<N>>>(world), probe::<EntitiesRes>(world));
+            drop(d);
+            (<ReadStorage<CG<N>> as SystemData>::reads(), <ReadStorage<CG<N>> as SystemData>::writes(), r.0, r.1)
+        };
+        let want = |id: &ResourceId| {
+            if writes.contains(id) {
+                Borrow::Exclusive
+            } else if reads.contains(id) {
+                Borrow::Shared
+            } else {
+                Borrow::Free
+            }
+        };
+        let name = if write { "WriteStorage" } else { "ReadStorage" };
+        ensure!("C11", "declaration-mismatch", bs == want(&sid),
+            "{}<CG<{}>>: after fetch() the component's storage is borrowed {:?} but reads()/writes() declare {:?}", name, N, bs, want(&sid));
+        ensure!("C11", "declaration-mismatch", be == want(&eid),
+            "{}<CG<{}>>: after fetch() EntitiesRes is borrowed {:?} but reads()/writes() declare {:?}", name, N, be, want(&eid));
+        ensure!("C11", "borrow-leaked", probe::<MaskedStorage<CG<N>>>(world) == Borrow::Free, "{}<CG<{}>>: storage still borrowed after the drop", name, N);
+    }
+    Ok(())
+}
+
+macro_rules! many16 {
+    ($w:expr, $only:expr, $base:expr) => {{
+        many_one::<{ $base }>($w, $only)?;
+        many_one::<{ $base + 1 }>($w, $only)?;
+        many_one::<{ $base + 2 }>($w, $only)?;
+        many_one::<{ $base + 3 }>($w, $only)?;
+        many_one::<{ $base + 4 }>($w, $only)?;
+        many_one::<{ $base + 5 }>($w, $only)?;
+        many_one::<{ $base + 6 }>($w, $only)?;
+        many_one::<{ $base + 7 }>($w, $only)?;
+        many_one::<{ $base + 8 }>($w, $only)?;
+        many_one::<{ $base + 9 }>($w, $only)?;
+        many_one::<{ $base + 10 }>($w, $only)?;
+        many_one::<{ $base + 11 }>($w, $only)?;
+        many_one::<{ $base + 12 }>($w, $only)?;
+        many_one::<{ $base + 13 }>($w, $only)?;
+        many_one::<{ $base + 14 }>($w, $only)?;
+        many_one::<{ $base + 15 }>($w, $only)?;
+    }};
+}
+
+macro_rules! many128 {
+    ($w:expr, $only:expr, $base:expr) => {{
+        many16!($w, $only, $base);
+        many16!($w, $only, $base + 16);
+        many16!($w, $only, $base + 32);
+        many16!($w, $only, $base + 48);
+        many16!($w, $only, $base + 64);
+        many16!($w, $only, $base + 80);
+        many16!($w, $only, $base + 96);
+        many16!($w, $only, $base + 112);
+    }};
+}
+
+/// Probes all `MANY` types (or just one when replaying).
+fn many_types(only: Option<usize>) -> Verdict {
+    let mut world = World::new();
+    let w = &mut world;
+    many128!(w, only, 0);
+    many128!(w, only, 128);
+    many128!(w, only, 256);
+    many128!(w, only, 384);
+    Ok(())
+}
+
+fn c11_many(ctx: &ShardCtx) -> ShardResult {
+    let mut r = run_list(ctx, (0..MANY).map(|n| ProbeCase(format!("CG<{}>", n))), |c, stats| {
+        let n: usize = c.0.trim_start_matches("CG<").trim_end_matches('>').parse().unwrap_or(0);
+        many_types(Some(n))?;
+        stats.case(c, true);
+        Ok(())
+    });
+    r.stats.exhaustive = Some(true);
+    r
+}
+
+fn c11_many_replay(v: &Value) -> Verdict {
+    let c: ProbeCase = parse_case("probe", v)?;
+    let n: usize = c.0.trim_start_matches("CG<").trim_end_matches('>').parse().unwrap_or(0);
+    many_types(Some(n))
 }
 
 // ---------------------------------------------------------------------------
@@ -517,7 +682,28 @@ impl<'a> System<'a> for DynSys {
         AccessorCow::Ref(&self.acc)
     }
 
-    fn setup(&mut self, _world: &mut World) {}
+    fn setup(&mut self, world: &mut World) {
+        // specs' own set-up of every handle this system uses (what Dispatcher::setup runs for ordinary systems)
+        fn setup_read<C: Component>(world: &mut World) {
+            <ReadStorage<C> as SystemData>::setup(world)
+        }
+        fn setup_write<C: Component>(world: &mut World) {
+            <WriteStorage<C> as SystemData>::setup(world)
+        }
+        for k in 0..NK {
+            match self.acc.spec.access[k] % 3 {
+                1 => with_k!(k, setup_read(world)),
+                2 => with_k!(k, setup_write(world)),
+                _ => {}
+            }
+        }
+        if self.acc.spec.entities {
+            <Entities as SystemData>::setup(world);
+        }
+        if self.acc.spec.lazy {
+            <Read<LazyUpdate> as SystemData>::setup(world);
+        }
+    }
 }
 
 const POOLS: [usize; 4] = [1, 2, 4, 16];
@@ -681,6 +867,14 @@ pub fn c11() -> Property {
                 run: c11_probe,
                 replay: c11_probe_replay,
                 rule: "exhaustive over 22 SystemData types (ReadStorage / WriteStorage of seven storage kinds incl. a zero-sized component in NullStorage, Entities, Read<LazyUpdate>, five tuples): fetch the data, then probe every resource of the world with catch_unwind(fetch / fetch_mut); the observed borrow state must be exclusive for exactly writes(), shared for exactly reads(), free otherwise, and free again after the drop; fetch() must also succeed while every undeclared resource is held exclusively elsewhere and every read-declared one is held shared (no transient undeclared borrows); every type is one non-trivial case",
+                exe_env: None,
+            },
+            SubCheck {
+                name: "many-types",
+                shards: |_| 4,
+                run: c11_many,
+                replay: c11_many_replay,
+                rule: "the borrow-state comparison of ReadStorage<T> / WriteStorage<T> for a family of 512 component types (const-generic CG<0..512>): after fetch() the component's storage and EntitiesRes must be borrowed exactly as reads()/writes() declare, and be free after the drop; catches declarations that depend on the identity (type id, hash) of the component type; every type is one case",
                 exe_env: None,
             },
             SubCheck {
